@@ -428,6 +428,6 @@ int read_elf(
 
   file.close_file();
 
-  return start;
+  return 0;
 }
 
